@@ -2309,6 +2309,24 @@ func (rl *clientConnReadLoop) processData(f *DataFrame) error {
 		}
 		return nil
 	}
+	if f.Length > 0 && (cs.readClosed || !cs.pastHeaders || (cs.isHead && len(data) > 0)) {
+		// The frame is discarded with a stream error below, but it still
+		// counts against the connection-level window (RFC 9113 section 6.9):
+		// account for it and return it, as for an unknown stream above.
+		cc.mu.Lock()
+		ok := cc.inflow.take(f.Length)
+		connAdd := cc.inflow.add(int(f.Length))
+		cc.mu.Unlock()
+		if !ok {
+			return ConnectionError(ErrCodeFlowControl)
+		}
+		if connAdd > 0 {
+			cc.wmu.Lock()
+			cc.fr.WriteWindowUpdate(0, uint32(connAdd))
+			cc.bw.Flush()
+			cc.wmu.Unlock()
+		}
+	}
 	if cs.readClosed {
 		cc.logf("protocol error: received DATA after END_STREAM")
 		rl.endStreamError(cs, StreamError{
